@@ -105,6 +105,8 @@ pub struct Gate<T> {
     gid: Option<u32>,
     make: Option<Box<dyn FnOnce(u32, bool) -> T + Send + 'static>>,
     finished: bool,
+    /// F-yield: further self-wakes before the gate completes (0..2; the first one happens at the first poll)
+    yields_left: u8,
 }
 
 impl<T> Unpin for Gate<T> {}
@@ -115,7 +117,7 @@ impl<T> Gate<T> {
         let occ = g.next_occ(ev);
         let ent = if g.mode == Mode::Async { ex().current } else { 0 };
         g.push(ent, Ph::Create, ev, occ, dg);
-        Gate { ev, occ, dg, gid: None, make: Some(Box::new(make)), finished: false }
+        Gate { ev, occ, dg, gid: None, make: Some(Box::new(make)), finished: false, yields_left: 0 }
     }
 
     fn pass(&mut self, ent: u32) -> T {
@@ -197,11 +199,20 @@ impl<T> Future for Gate<T> {
                     }
                 }
                 if yield_now {
+                    // one gate in three yields more than once (a future that needs several polls)
+                    let h = crate::rng::hash_all(&[self.ev as u64, self.occ as u64, 0x77]) % 6;
+                    self.yields_left = if h == 0 { 2 } else if h == 1 { 1 } else { 0 };
                     cx.waker().wake_by_ref();
                 }
                 Poll::Pending
             }
             Some(gid) => {
+                if self.yields_left > 0 {
+                    self.yields_left -= 1;
+                    ex().yields += 1;
+                    cx.waker().wake_by_ref();
+                    return Poll::Pending;
+                }
                 let (released, task) = {
                     let mut e = ex();
                     let task = e.current;
